@@ -51,6 +51,7 @@ pub fn run(ctx: &mut Ctx) {
     ctx.floor("dtls.many.err", 300);
     ctx.floor("alias.cases", 10_000);
     ctx.floor("size-coincidences.exact", 30);
+    ctx.floor("tiny-runs", 120);
 
     let n = ctx.tier.pick(40000, 400000);
     ctx.family("tls", n, |ctx, case: &mut Case| {
@@ -137,6 +138,65 @@ pub fn run(ctx: &mut Ctx) {
     });
 
 
+
+
+    // runs of the SMALLEST possible records (many records in few bytes): empty application data (5 bytes),
+    // single CCS (6), single alert (7); DTLS: single CCS (14)
+    ctx.sweep("tiny-record-runs", 120, |ctx, idx| {
+        let mut r = crate::rng::Rng::new(idx ^ 0x7197);
+        let n = 1 + (idx % 60) as usize;
+        let dtls = idx >= 60;
+        let mut buf = Vec::new();
+        for i in 0..n {
+            if dtls {
+                let h = gen::dtls_hdr(&mut r, 0x14);
+                buf.extend(refenc::dtls_record(&h, &[1]));
+            } else {
+                match if idx % 3 == 0 { 0 } else { (i + idx as usize) % 4 } {
+                    0 | 1 => buf.extend(refenc::record(0x17, 0x0303, &[])),
+                    2 => buf.extend(refenc::record(0x14, 0x0303, &[1])),
+                    _ => buf.extend(refenc::record(0x15, 0x0303, &[1, 0])),
+                }
+            }
+        }
+        if idx % 5 == 4 {
+            buf.extend_from_slice(&[0x17, 3]);
+        }
+        ctx.eval();
+        ctx.count("tiny-runs");
+        ctx.shape(&("tiny", dtls, n.min(10)));
+        if !dtls {
+            let (mut off, mut k) = (0usize, 0usize);
+            while off < buf.len() {
+                match parse_tls_plaintext(&buf[off..]) {
+                    Ok((rem, _)) => {
+                        off = buf.len() - rem.len();
+                        k += 1;
+                    }
+                    Err(_) => break,
+                }
+            }
+            let many = tls_parser_many(&buf);
+            if !matches!(&many, Ok((rem, v)) if v.len() == k && rem.len() == buf.len() - off) {
+                ctx.violation("c16:tls_parser_many:records-or-remainder-differ".into(), json!({"family": "tiny-record-runs", "records": n, "loop_records": k, "many": classify(&many).show(), "many_records": many.as_ref().ok().map(|x| x.1.len()), "input_hex": hex_short(&buf)}));
+            }
+        } else {
+            let (mut off, mut k) = (0usize, 0usize);
+            while off < buf.len() {
+                match parse_dtls_plaintext_record(&buf[off..]) {
+                    Ok((rem, _)) => {
+                        off = buf.len() - rem.len();
+                        k += 1;
+                    }
+                    Err(_) => break,
+                }
+            }
+            let many = parse_dtls_plaintext_records(&buf);
+            if !matches!(&many, Ok((rem, v)) if v.len() == k && rem.len() == buf.len() - off) {
+                ctx.violation("c16:parse_dtls_plaintext_records:records-or-remainder-differ".into(), json!({"family": "tiny-record-runs", "records": n, "loop_records": k, "many": classify(&many).show(), "input_hex": hex_short(&buf)}));
+            }
+        }
+    });
 
     // buffers whose absolute sizes coincide with powers of two: the bytes after the first record / after the
     // first header / the whole buffer are exact multiples of 65536 (length arithmetic in narrower integer types)
